@@ -228,3 +228,100 @@ example : (iGRun (fun cur => cur + intIncrement) genNext 4).ret = some 4 ∧
     (iGRun (fun cur => cur + intIncrement) genNext 4).current = 5 := by decide
 
 end PyxProps.C19
+
+/-! ==========================================================================================================
+  AUDIT ROUND 1 REPAIRS (C19#1, #2, #3, #4)
+  ========================================================================================================== -/
+namespace PyxProps.C19
+open Pyx.Attr Pyx.NewInst
+
+/-- C19#1 — the function the driver runs (`NewInst.newInst` = `Attr.newInstWith (typedDefault stream)`, the world-level
+    `MetaModel.new`) is built on the function the theorems are about: `newOne` IS its creation part `Attr.newDict`; the
+    instance the driver's `new` appends to the storage holds `newOne`'s dictionary, the generator ends at `newOne`'s
+    position, and a failed `newOne` is reported as MetaException.  (The batch relate that follows only touches links.) -/
+theorem driver_new_is_newOne (stream : Nat → Int) (w : World) (kind : Name) (args : List Val) (kwargs : List (Name × Val))
+    (c : Cls) (hc : findMetaclass w.classes kind = some c) :
+    newOne stream ⟨c, args, kwargs⟩ w.nextId =
+      ({ dict := (newDict (typedDefault stream) c args kwargs w.nextId).1.dict,
+         defs := (newDict (typedDefault stream) c args kwargs w.nextId).2.1,
+         ok := (newDict (typedDefault stream) c args kwargs w.nextId).2.2.2 },
+       (newDict (typedDefault stream) c args kwargs w.nextId).2.2.1) ∧
+    (newInst stream w kind args kwargs).1.insts =
+      w.insts ++ [{ cls := fold kind, dict := (newOne stream ⟨c, args, kwargs⟩ w.nextId).1.dict }] ∧
+    (newInst stream w kind args kwargs).1.nextId = (newOne stream ⟨c, args, kwargs⟩ w.nextId).2 ∧
+    ((newOne stream ⟨c, args, kwargs⟩ w.nextId).1.ok = false → (newInst stream w kind args kwargs).2 = some .metaE) :=
+  ⟨newOne_eq_newDict stream ⟨c, args, kwargs⟩ w.nextId, newInst_is_newOne stream w kind args kwargs c hc⟩
+
+/-- C19#3 — histories in which creations are interleaved with the user's own `next()` and `peek()` on the
+    metamodel's generator (the quantifier of the property): for any injective, never-null stream the ids left to their
+    default are non-null and pairwise distinct; a user's `next()` consumes a value that no instance receives, `peek()`
+    consumes nothing -/
+theorem ids_fresh_history (stream : Nat → Int) (hinj : ∀ i j, stream i = stream j → i = j) (hnn : ∀ i, stream i ≠ 0)
+    (h : List HOp) (pos : Nat) (hwf : ∀ c, HOp.create c ∈ h → WF c.cls) :
+    (histDefaultedIds (runHist stream h pos).1).Nodup ∧
+    ∀ x ∈ histDefaultedIds (runHist stream h pos).1, ∃ p : Nat, pos ≤ p ∧ x = some (.int (stream p)) ∧ stream p ≠ 0 := by
+  obtain ⟨_, hs⟩ := runHist_ids stream h pos hwf
+  constructor
+  · apply hs.nodup
+    apply nodup_map_inj
+    · intro a b hab
+      simp only [Option.some.injEq, Val.int.injEq] at hab
+      exact hinj a b hab
+    · exact List.nodup_range' 1
+  · intro x hx
+    obtain ⟨p, hp, rfl⟩ := List.mem_map.mp (hs.subset hx)
+    exact ⟨p, (List.mem_range'_1.mp hp).1, rfl, hnn p⟩
+
+/-- C19#2 — what freshness does and does not cover.  `ids_fresh` / `ids_fresh_history` are about ids LEFT TO THEIR
+    DEFAULT: they never repeat among themselves.  An id supplied EXPLICITLY by the caller is not drawn from the generator
+    and can coincide with a defaulted one (IntegerGenerator: `new('A', Id=2); new('A')` gives two instances with Id 2 —
+    see the example below).  What can be said: a defaulted id is always a value of the generator's stream, so it differs
+    from every explicit id that is not such a value — for the integer generator: from every explicit id ≤ 0, and from
+    every explicit id larger than the number of values drawn so far -/
+theorem ids_fresh_vs_explicit (stream : Nat → Int) (h : List HOp) (pos : Nat) (hwf : ∀ c, HOp.create c ∈ h → WF c.cls)
+    (v : Int) :
+    ((∀ k, stream k ≠ v) → ∀ x ∈ histDefaultedIds (runHist stream h pos).1, x ≠ some (.int v)) ∧
+    ((∀ k, pos ≤ k → k < (runHist stream h pos).2 → stream k ≠ v) →
+      ∀ x ∈ histDefaultedIds (runHist stream h pos).1, x ≠ some (.int v)) := by
+  obtain ⟨_, hs⟩ := runHist_ids stream h pos hwf
+  constructor
+  · intro hv x hx he
+    obtain ⟨p, _, rfl⟩ := List.mem_map.mp (hs.subset hx)
+    simp only [Option.some.injEq, Val.int.injEq] at he
+    exact hv p he
+  · intro hv x hx he
+    obtain ⟨p, hp, rfl⟩ := List.mem_map.mp (hs.subset hx)
+    simp only [Option.some.injEq, Val.int.injEq] at he
+    have := List.mem_range'_1.mp hp
+    exact hv p this.1 (by omega) he
+
+theorem integer_ids_vs_explicit (h : List HOp) (hwf : ∀ c, HOp.create c ∈ h → WF c.cls) (v : Int)
+    (hv : v ≤ 0 ∨ ((runHist intStream h 0).2 : Int) < v) :
+    ∀ x ∈ histDefaultedIds (runHist intStream h 0).1, x ≠ some (.int v) := by
+  apply (ids_fresh_vs_explicit intStream h 0 hwf v).2
+  intro k _ hk
+  unfold intStream
+  omega
+
+/-! examples (C19#2: the disclosed collision; C19#3: a history with next/peek; C19#4: an unknown type and a class
+    with a referential attribute) -/
+def cId : Cls := { kind := ['A'], attrs := [(['I', 'd'], ['u', 'n', 'i', 'q', 'u', 'e', '_', 'i', 'd'])], refs := [] }
+/-- `new('A', Id=2); new('A')` with the integer generator: the explicit 2 and the defaulted 2 coincide — and the
+    defaulted ids alone ([2]) are still pairwise distinct -/
+example : ((runHist intStream [.create ⟨cId, [], [(['I', 'D'], .int 2)]⟩, .create ⟨cId, [], []⟩] 0).1.map (·.2.dict)) =
+      [[(['I', 'd'], .int 2)], [(['I', 'd'], .int 2)]] ∧
+    histDefaultedIds (runHist intStream [.create ⟨cId, [], [(['I', 'D'], .int 2)]⟩, .create ⟨cId, [], []⟩] 0).1 = [some (.int 2)] := by
+  decide
+example : histDefaultedIds (runHist intStream [.create ⟨cId, [], []⟩, .next, .peek, .create ⟨cId, [], []⟩, .next, .create call1] 0).1 =
+    [some (.int 1), some (.int 3), some (.int 5), some (.int 6)] := by decide
+def cBad : Cls := { kind := ['B'], attrs := [(['I', 'd'], ['U', 'N', 'I', 'Q', 'U', 'E', '_', 'I', 'D']), (['x'], ['f', 'o', 'o']), (['y'], ['i', 'n', 't', 'e', 'g', 'e', 'r'])], refs := [] }
+example : (newOne intStream ⟨cBad, [], []⟩ 0).1.dict = [(['I', 'd'], .int 1)] ∧ (newOne intStream ⟨cBad, [], []⟩ 0).1.ok = false ∧
+    (newOne intStream ⟨cBad, [], []⟩ 0).2 = 1 := by decide
+def cRef : Cls := { kind := ['C'], attrs := [(['I', 'd'], ['u', 'n', 'i', 'q', 'u', 'e', '_', 'i', 'd']), (['A', '_', 'I', 'd'], ['u', 'n', 'i', 'q', 'u', 'e', '_', 'i', 'd'])], refs := [['A', '_', 'I', 'd']] }
+example : WF cRef ∧ ((newOne intStream ⟨cRef, [], [(['a', '_', 'i', 'D'], .int 7)]⟩ 0).1.dict = [(['I', 'd'], .int 1)] ∧
+    (newOne intStream ⟨cRef, [], [(['a', '_', 'i', 'D'], .int 7)]⟩ 0).1.ok = true) ∧
+    defaultedIdAttrs ⟨cRef, [], [(['a', '_', 'i', 'D'], .int 7)]⟩ = [['I', 'd']] := by
+  refine ⟨by unfold WF; decide, by decide, by decide⟩
+
+end PyxProps.C19
+
